@@ -508,6 +508,10 @@ impl<'a, 's> ProcedureAnalysis<'a, 's> {
             None
         };
         let keys = self.write_keys(destination);
+        // The right-hand side is evaluated for every destination region
+        // before any region is rebound: `v = {v[2:0], x}` reads the
+        // pre-statement value of `v` in all of its regions.
+        let mut bindings = Vec::with_capacity(keys.len());
         for key in keys {
             let mut dependencies = controls.to_vec();
             for selector in destination
@@ -533,6 +537,9 @@ impl<'a, 's> ProcedureAnalysis<'a, 's> {
                 dependencies.extend(self.eval_expr(expression));
             }
             let version = self.ssa.definition(dependencies);
+            bindings.push((key, version));
+        }
+        for (key, version) in bindings {
             self.bind_key(key, version);
             self.written.insert(key);
         }
